@@ -60,6 +60,11 @@ def gen_case(rng, level=None):
             lines.append("trickle %d" % t)
             kinds.add("partial-frame-bytes")
             trickled = True
+        elif r < 0.8 and level in ("udp", "udpnc", "udpreq", "tcp", "tcpnc") and rng.random() < 0.3:
+            # the LOCAL side writes a non-confirmable message (an application that pushes notifications): what this side sends
+            # says nothing about the peer - neither the period nor the count of unanswered pings may be refreshed (seeded C18-T)
+            lines.append("send %d" % t)
+            kinds.add("local-send")
         elif r < 0.8 and level != "unit" and rng.random() < 0.15:
             # a request whose handler takes a while (it ends before, at or after the period has run out): what counts is when
             # the message was RECEIVED
@@ -81,6 +86,27 @@ def gen_case(rng, level=None):
             else:
                 lines.append("recv %d" % t)
     return lines, kinds, level
+
+
+def pushing_case(rng, level):
+    """a silent peer and a local side that keeps pushing messages more often than the period: the connection must be pinged /
+    closed at the ticks exactly as if nothing had been sent"""
+    period = rng.choice([100, 1000, 1_000_000])
+    n = rng.choice(["-", "0", "1", "2"])
+    if level.endswith("nc") and n == "-":
+        n = "1"
+    lines = ["cfg %s %d %s 0" % (level, period, n)]
+    t = 0
+    step = max(1, period // rng.choice([3, 4, 7]))
+    nticks = 0
+    while t < 5 * period:
+        t += step
+        lines.append("send %d" % t)
+        if t // (period // 2 + 1) > nticks:
+            nticks = t // (period // 2 + 1)
+            t += 1
+            lines.append("tick %d" % t)
+    return lines, {"local-send", "pushing-to-silent-peer"}, level
 
 
 def strip_level(l):
@@ -112,7 +138,10 @@ def explore(ctx, art):
     lines = []
     owner = []
     for ci in range(4000 if thorough else 600):
-        cl, kinds, level = gen_case(rng)
+        if ci % 40 == 7:
+            cl, kinds, level = pushing_case(rng, rng.choice(["udp", "udpnc", "udpreq", "tcp", "tcpnc"]))
+        else:
+            cl, kinds, level = gen_case(rng)
         cases.append((cl, kinds, level))
         for l in cl:
             lines.append(l)
